@@ -17,7 +17,8 @@ Oracle (C), every family, default and user start values, data and c*data:
       ll_fit_ge_ll_start, ll_fit_ge_ll_truth (tol = 1e-6 (1+|LL|)), parameters_finite_admissible,
       scale_equivariant (shapes rtol 1e-3, scales 1e-4; where the parameters differ by more: the two
       estimates' log-likelihoods on the same data may differ by at most tol + the MEASURED optimiser error of
-      the two fits = what restarting the real fit from its own result still gains); for Normal / LogNormal also
+      the two fits = what restarting the real fit from its own result still gains, capped at 0.5); for Normal /
+      LogNormal also
       ll_fit_ge_ll_start with the start placed at the Lean model's (proven) arg-max.
 """
 import copy
@@ -34,6 +35,10 @@ TOL_REL = 1e-6
 RT_SHAPE = 1e-3
 RT_SCALE = 1e-4
 DATA_SCALE = (0.05, 20.0)
+# A difference between fit(x) and the rescaled fit(c*x) that is explained by the measured optimiser error is accepted
+# only up to this many log-likelihood units (likelihood-ratio statistic 2*0.5 = 1: the two estimates are statistically
+# indistinguishable); an optimiser that stops further below what a restart reaches is reported.
+OPT_ERR_CAP = 0.5
 
 
 # --------------------------------------------------------------------------- families
@@ -347,12 +352,12 @@ def eval_case(case, argmax_start=None):
                 err_x = polish_gain(name, fitted["x"], x)
                 err_cx = polish_gain(name, fitted["cx"], c * x)
                 out["optimiser_error"] = {"x": err_x, "cx": err_cx}
-            if not abs(gap) <= tol + err_x + err_cx:
+            if not abs(gap) <= tol + min(err_x + err_cx, OPT_ERR_CAP):
                 worst = ", ".join(f"{p}: {e:.3g} (limit {lim:g})" for p, (e, lim) in dev.items() if e > lim)
                 out["bad"].append(("scale_equivariant",
                                    f"c={c!r}: fit(x)={fitted['x']}, fit(c*x) scaled back={back}; relative deviation {worst}; "
                                    f"log-likelihoods on x differ by {gap:.4g} (> {tol:.3g} + measured optimiser error "
-                                   f"{err_x:.3g} + {err_cx:.3g})",
+                                   f"{err_x:.3g} + {err_cx:.3g}, capped at {OPT_ERR_CAP})",
                                    {"input_class": UNBOUNDED} if unb else {"ll_gap": gap_class(gap)}))
             else:
                 out["equiv_tier"] = "likelihood" if abs(gap) <= tol else "measured-optimiser-error"
@@ -646,7 +651,8 @@ def main(ck):
         "user start values = generating values perturbed by up to ~40 % (locations moved into the support)",
         "scale_equivariant accepts parameter agreement (1e-3 shapes / 1e-4 scales); otherwise the log-likelihood gap "
         "between fit(x) and the rescaled fit(c*x) on x must be within 1e-6 (1+|LL|) + the measured optimiser error of the "
-        "two fits (gain of restarting the real fit from its own result): by ll_scale_law that gap IS err(c*x) - err(x)",
+        "two fits (gain of restarting the real fit from its own result, accepted up to 0.5 log-likelihood units): by "
+        "ll_scale_law that gap IS err(c*x) - err(x)",
         "von Mises has its scale fixed at 1 (fscale=1): no scale equivariance is claimed or checked",
         "the Lean log-likelihoods are evaluated at Float with numpy/scipy values of log, exp, expm1, pow, gammaln, i0e, cos as TABLE leaves",
     ]
@@ -707,6 +713,15 @@ def replay(ck, payload):
             print("oracle:", pred, detail)
         print("fits:", res.get("fits"), "log-likelihoods:", res.get("ll"))
         return not res["bad"]
+    if case.get("part") == "B":
+        name = case["family"]
+        x = sample(name, case["truth"], case["n"], case["seed"]) * case.get("mult", 1.0)
+        d = fit_once(name, None, x)
+        ans = run_model(ck, [fit_lines(name, x)])[0]
+        mv = [b2f(t) for t in ans[1:]] if ans[0] == "OK" else ans
+        impl = ([float(d.mu_norm), float(d.sigma_norm)] if name == "LogNormalNormFit" else []) + [float(d.mu), float(d.sigma)]
+        print("implementation:", impl, "Lean closed form:", mv)
+        return ans[0] == "OK" and all(rel_close(i, m, 1e-12) or abs(i - m) <= 1e-12 for i, m in zip(impl, mv))
     if case.get("part") == "A":
         x = sample(case["family"], case["truth"], case["n"], case["seed"])
         correspond_ll(ck, [(case, case["family"], case.get("params", case["truth"]), x, case.get("at", "truth"))])
